@@ -198,15 +198,14 @@ def isIntLit : SExpr → Bool
 /-- node `i` is a REDUCTION of the fragment: a chain of reductions with constant bounds at the
     root of the expression, over a reduction-free expression of the fragment; the variables are
     distinct, are not names of bindings, and are listed in the chain's order by both descriptors;
-    every bound is hoisted (what `is_quasi_affine` of the installed loopy makes of every bound); the
-    result has at least one axis (TODO: 0-d results, whose bound temporaries are statements) -/
+    every bound is hoisted (what `is_quasi_affine` of the installed loopy makes of every bound) -/
 def redNode (g : LGraph) (i : Nat) : Bool :=
   match g.get i with
   | .indexLambda shape e binds impl _ uo rvars =>
     let ch := (splitChain e).1
     let body := (splitChain e).2
     let vars := ch.map (·.2.1)
-    !isEmptyShape shape && !(shape.length == 0) && !ch.isEmpty &&
+    !isEmptyShape shape && !ch.isEmpty &&
       ch.all (fun c => isIntLit c.2.2.1 && isIntLit c.2.2.2) &&
       decide vars.Nodup && vars.all (fun v => !(binds.map (·.1)).contains v) &&
       (uo == vars) && (rvars.map (·.name) == vars) &&
@@ -229,7 +228,6 @@ def whyNotR (g : LGraph) (i : Nat) : String :=
   | .indexLambda shape e _ _ _ uo rvars =>
     if uo.isEmpty && rvars.isEmpty then whyNot g i
     else if isEmptyShape shape then "empty-axis"
-    else if shape.length == 0 then "reduction-0d"
     else if !((splitChain e).1.all fun c => isIntLit c.2.2.1 && isIntLit c.2.2.2) then "reduction-bounds"
     else if hasBool (splitChain e).2 then "boolean-constant"
     else "reduction-other"
